@@ -233,6 +233,19 @@ def emit_item(unit, store, relfile, path, mode, only=None, variant=""):
                     harmless = True
                 (unit.skipped_harmless if harmless else unit.skipped).setdefault(key, []).append(anchor)
                 continue
+            if "$it" in text:
+                # `$it<N>`: the iteration variable of the N-th loop as the current source names it
+                lv = rsx.loop_vars(item)
+                def _sub(m):
+                    n = int(m.group(1))
+                    if n >= len(lv) or lv[n] is None:
+                        raise ExtractError("anchor lost: $it%d in %s (loop has no single iteration variable)" % (n, item.path))
+                    return lv[n]
+                try:
+                    text = re.sub(r"\$it(\d+)", _sub, text)
+                except ExtractError:
+                    unit.skipped.setdefault(key, []).append(anchor + " ($it)")
+                    continue
             ins.append((pos, order, anchor, text, sline))
     if mode == "body":
         r7 = rsx.r7_closure_patterns(item)
